@@ -260,6 +260,7 @@ class Explorer:
             path = Path(prefix, pending)
             it.path = path
             it.frame = None
+            it.path_instr0 = st.instrs
             it.solver.push()
             outcome = 'ok'
             try:
